@@ -102,7 +102,8 @@ def run_model(ctx, model, record=True, orders=None):
     k = model['ndex']
     kinds = _cross(model, exp)
     if record:
-        ctx.case(nontrivial=(k >= 2 and bool(kinds)), key=repr(model), labels=['ndex:%d' % k] + sorted(kinds),
+        ctx.case(nontrivial=(k >= 2 and bool(kinds)), key=repr(model),
+                 labels=['ndex:%d' % k] + sorted(kinds) + sorted(X.payload_labels(model)),
                  sample={'ndex': k, 'classes': [[c['name'], c['dex']] for c in model['classes']], 'cross': sorted(kinds)})
     case0 = {'mode': 'model', 'model': model}
     single = [b for (b, _) in X.build(model, single=True)]
